@@ -362,17 +362,18 @@ def sequences(pool, n, rnd, mode, size):
         rot[c] += 1
         return v
     # (all variants alone?, pairs?, (alphabet, length) of the long product or None, cap on it, random sequences)
-    plan = {('full', True): (True, True, (merged, 3), 216, 8), ('full', False): (True, True, (classes, 4), 1500000000 // max(size, 1), 120),
+    plan = {('full', True): (False, True, (merged, 3), 216, 8), ('full', False): (True, True, (classes, 4), 1500000000 // max(size, 1), 80),
             ('trunc', True): (False, True, None, 0, 2), ('trunc', False): (True, True, (classes, 3), 400000000 // max(size, 1), 30),
             ('skip', True): (False, False, None, 0, 2), ('skip', False): (True, True, (merged, 3), 216, 20),
             ('single', True): (False, False, None, 0, 1), ('single', False): (True, True, None, 0, 10)}[(mode, QUICK)]
     allv, pairs, longp, cap, nrandom = plan
     seqs = []
     for c in sorted(pool):
-        for a in (pool[c] if allv else pool[c][:1]):
-            seqs.append([a]); seqs.append([('last',), a])
+        for i, a in enumerate(pool[c] if (allv or mode == 'full') else pool[c][:1]):
+            seqs.append([a])
+            if allv or i == 0: seqs.append([('last',), a])
     if pairs:
-        for cs in itertools.product(classes, repeat=2):
+        for cs in itertools.product(merged if (QUICK and mode == 'trunc') else classes, repeat=2):
             seqs.append([pick(c) for c in cs])
     if longp:
         prod = list(itertools.product(longp[0], repeat=longp[1]))
@@ -442,7 +443,7 @@ def run_job(job, conn, progfile):
         nshrunk = 0
         ntimeouts = 0
         for seq in seqs:
-            if time.time() > DEADLINE or ntimeouts >= (2 if QUICK else 3):
+            if time.time() > DEADLINE or ntimeouts >= ((2 if QUICK else 3) if mode == 'skip' else (5 if QUICK else 12)):
                 out['skipped'] += 1          # out of time, or this reader has hung often enough
                 continue
             desc = ', '.join(show(a) for a in seq)
@@ -458,7 +459,7 @@ def run_job(job, conn, progfile):
             seq = seq[:p + 1]
             if cat == 'timeout':
                 ntimeouts += 1
-                if len(seq) > 1 and ntimeouts == 1:       # a hang: only try the last action on its own
+                if len(seq) > 1:                          # a hang: only try the last action on its own
                     r2 = nav.run(seq[-1:], count=False)
                     if r2 is not None and r2[1] == cat:
                         seq, what = seq[-1:], r2[2]
